@@ -33,6 +33,22 @@ CHECKS = {
    note="asynchronous exceptions between bytecodes are not injected; scipy LSODA trusted; for non-finite/malformed L the only demand is 'if it raises, history is untouched'; mismatched (phase, fabric) only required to be rejected in dislocation-type regimes",
    technique="deterministic simulation: fault injection enumerated over every collaborator call index of an update, reference twin",
  ),
+ "C06": dict(
+   engine="world",
+   category="exploration",
+   text="Every F returned by update_orientations / update_all along seeded histories (non-identity starting F, non-commuting constant, time-periodic, position-dependent-along-a-moving-pathline and PyDRex's own flows, all accepted regimes, seeded partitions, bulk updates in seeded orders) is refined against an independent reference integration (expm / DOP853 at 1e-11) started from the F handed in: per call, cumulatively over the history with the statement's bound, in determinant against exp(int tr L), and split-vs-whole on a twin world executing the merged interval.",
+   design_ref="DESIGN.md 4.4",
+   note="reference integrator trusted; independence from phase/fabric/regime/grain count follows from every mineral being refined against the same reference within the bound",
+   technique="deterministic simulation: seeded histories refined against an executable reference model",
+ ),
+ "C09": dict(
+   engine="world",
+   category="exploration",
+   text="apply_gbs is interposed (recording pass-through around the real compiled function). Seeded histories biased to push grains through chi/n (high M*, few grains, non-uniform volumes with exact zeros, exact-tie constructions, chi = 0) are executed and after every update the stored snapshot is compared with the value recomputed by the harness from the recorded inputs of the last interposed call: frozen grains bit-equal to the start-of-update snapshot, others bit-equal to the integrated orientation, fractions = floor-and-renormalise to 1e-12 relative, reference snapshot = previous snapshot, seam inputs (n, chi), min-fraction bound, ordering, chi = 0.",
+   design_ref="DESIGN.md 4.7",
+   note="'integrated volume fraction' is what the last solver step hands to apply_gbs; if the seam is never reached the check exits 2 (harness error), never 0",
+   technique="deterministic simulation: seeded histories with an interposed seam and a recomputing oracle after every event",
+ ),
 }
 
 def build():
